@@ -1547,12 +1547,12 @@ func (stack *extensionParsingStack) walkBack(rawLines []string, lineIndex int) {
 		// Pop elements off the stack until we're back where we need to be
 		runbackIndex := 0
 		poppedIndent := 1000
-		for {
+		for runbackIndex <= lineIndex {
 			checkIndent := strings.IndexAny(rawLines[lineIndex-runbackIndex], AlphaChars)
 			if nextIndent == checkIndent {
 				break
 			}
-			if checkIndent < poppedIndent {
+			if checkIndent < poppedIndent && len(*stack) > 0 {
 				*stack = (*stack)[:len(*stack)-1]
 				poppedIndent = checkIndent
 			}
@@ -1564,8 +1564,8 @@ func (stack *extensionParsingStack) walkBack(rawLines []string, lineIndex int) {
 // Recursively parses through the given extension lines, building and adding extension objects as it goes.
 // Extensions may be key:value pairs, arrays, or objects.
 func buildExtensionObjects(rawLines []string, cleanLines []string, lineIndex int, extObjs *[]extensionObject, stack *extensionParsingStack) {
-	if lineIndex >= len(rawLines) {
-		if stack != nil {
+	if lineIndex >= len(rawLines) || lineIndex >= len(cleanLines) {
+		if stack != nil && len(*stack) > 0 {
 			if ext, ok := (*stack)[0].(extensionObject); ok {
 				*extObjs = append(*extObjs, ext)
 			}
@@ -1580,7 +1580,7 @@ func buildExtensionObjects(rawLines []string, cleanLines []string, lineIndex int
 	}
 
 	nextIsList := false
-	if lineIndex < len(rawLines)-1 {
+	if lineIndex < len(rawLines)-1 && lineIndex < len(cleanLines)-1 {
 		next := strings.SplitAfterN(cleanLines[lineIndex+1], ":", 2)
 		nextIsList = len(next) == 1
 	}
@@ -1591,7 +1591,7 @@ func buildExtensionObjects(rawLines []string, cleanLines []string, lineIndex int
 
 		if rxAllowedExtensions.MatchString(key) {
 			// New extension started
-			if stack != nil {
+			if stack != nil && len(*stack) > 0 {
 				if ext, ok := (*stack)[0].(extensionObject); ok {
 					*extObjs = append(*extObjs, ext)
 				}
@@ -1648,7 +1648,7 @@ func buildExtensionObjects(rawLines []string, cleanLines []string, lineIndex int
 				if reflect.TypeOf((*stack)[stackIndex]).Kind() == reflect.Map {
 					(*stack)[stackIndex].(map[string]interface{})[key] = value
 				}
-				if lineIndex < len(rawLines)-1 && !rxAllowedExtensions.MatchString(cleanLines[lineIndex+1]) {
+				if lineIndex < len(rawLines)-1 && lineIndex < len(cleanLines)-1 && !rxAllowedExtensions.MatchString(cleanLines[lineIndex+1]) {
 					stack.walkBack(rawLines, lineIndex)
 				}
 			}
@@ -1660,7 +1660,7 @@ func buildExtensionObjects(rawLines []string, cleanLines []string, lineIndex int
 		list := (*stack)[stackIndex].(*[]string)
 		*list = append(*list, key)
 		(*stack)[stackIndex] = list
-		if lineIndex < len(rawLines)-1 && !rxAllowedExtensions.MatchString(cleanLines[lineIndex+1]) {
+		if lineIndex < len(rawLines)-1 && lineIndex < len(cleanLines)-1 && !rxAllowedExtensions.MatchString(cleanLines[lineIndex+1]) {
 			stack.walkBack(rawLines, lineIndex)
 		}
 		buildExtensionObjects(rawLines, cleanLines, lineIndex+1, extObjs, stack)
